@@ -593,3 +593,6 @@ PROPS["C12"]["rule"] += " One received RA in three may list a prefix or route in
 PROPS["C17"]["rule"] += " Overlap probes run in two rounds (three requests 0.7 ms apart, two requests 1.4 ms apart) and include the debug API: each overlapping answer must equal the answer of the request that ran alone (API bodies only when no advertised value depends on time); the quiet window covers every recorded Prepare instant and lasts until the slowest overlapping request has finished. Whole-process: two real API requests 3 ms apart."
 PROPS["C03"]["rule"] += " Thorough tier: 150 s of native coverage-guided fuzzing of raw TOML bytes (FuzzVerif_C03) with the same round-trip oracle on whatever config.Parse accepts within the statement's domain."
 PROPS["C07"]["rule"] += " Whole-process: a solicitation from :: (handed over as ::%<interface>) must be answered by a scheduled multicast RA before the second scrape, and no RA may be sent to ::."
+PROPS["C04"]["rule"] += " Slow-state sub-check (400 / 60 000 cases): a forwarding read samples the value and returns 700 ms later, so RA generations overlap; each solicitation comes from a host of its own, flips fall while an answer is being generated, further solicitations follow the flip; an RA must be consistent with a forwarding value from [max(write start - 700 ms, the instant its solicitation was read), write start]. Non-trivial there: two generations overlapping in time."
+PROPS["C10"]["rule"] += " System call faults carry an errno from {ENETDOWN, EINTR, EMFILE, ENFILE, ENOBUFS, EIO, ENODEV} in the *net.OpError / *os.SyscallError wrapping a socket operation returns (EINTR, EMFILE, ENFILE report Temporary()); the policy part draws one of five error shapes per case (also EACCES as a permission error)."
+PROPS["C17"]["rule"] += " One configuration in five (both parts) has stanzas A, B, A' whose options share their metric labels without being neighbours in the RA."
